@@ -126,6 +126,10 @@ _WIDE_EXTRA = [
     "-   ",
     "> - > a",
     "- > - a",
+    # a link reference definition that starts inside a container
+    "- [l]:",
+    "1. [l]:",
+    "> [l]:",
 ]
 # characters that are not plain CommonMark input: non-ASCII letters, pymarkdown's in-band
 # marker characters, a pragma line.  Not used for the CommonMark comparison (C03).
